@@ -65,7 +65,7 @@ func zzSameUsage(got cdrType.MultipleUnitUsage, want models.ChfConvergedCharging
 // once, in order, in that session's record and nowhere else; the record keeps
 // the identification given at creation; cause for closing is normal on release.
 //
-//gosx:property=C02 tier=quick unwind=40 timeout=30000 p.entries=1 p.entries.thorough=2 p.containers=1 p.containers.thorough=2
+//gosx:property=C02 tier=quick shards=4 unwind=40 timeout=30000 p.entries=1 p.entries.thorough=2 p.containers=1 p.containers.thorough=2
 func ZZ_C02_UsageRecorded() {
 	p := zzSetup()
 	rg := vx.Int32("rg")
@@ -95,8 +95,16 @@ func ZZ_C02_UsageRecorded() {
 	// an earlier update on either session, so that lists are not empty
 	first, _ := zzUsageInd("first", rg, 1, 1)
 	zzSmallUsage(&first)
+	// (which session the earlier update and the step address is fixed per shard)
+	shard, sharded := vx.Param("shard", 0), vx.Param("nshards", 1) == 4
+	pick := func(label string, bit int) int {
+		if sharded {
+			return shard >> uint(bit) & 1
+		}
+		return vx.Choice(label, 2)
+	}
 	target0 := refA
-	if vx.Choice("first.target", 2) == 1 {
+	if pick("first.target", 0) == 1 {
 		target0 = refB
 	}
 	c0 := &gin.Context{}
@@ -116,7 +124,7 @@ func ZZ_C02_UsageRecorded() {
 	}
 	req := models.ChfConvergedChargingChargingDataRequest{SubscriberIdentifier: zzSupi, MultipleUnitUsage: entries}
 	target, other, oldT, oldO := refA, refB, oldA, oldB
-	if vx.Choice("target", 2) == 1 {
+	if pick("target", 1) == 1 {
 		target, other, oldT, oldO = refB, refA, oldB, oldA
 	}
 	release := vx.Choice("op", 2) == 1
